@@ -349,6 +349,7 @@ func runC10(c *Ctx, r *Report) {
 		r.check(ok, "C10-R4-chaining", "DecodeChained/same-reader", c.pos(fn.Pos()), why, why)
 		// fresh decoder per file, or a complete re-initialisation (perfile.go)
 		optionsCarryNoState(c, r, "C10-R4-chaining")
+		readerKindIndependent(c, r, "C10-R1-reader")
 		perFileRule(c, r, "C10-R4-chaining", nil, "buffered bytes, counters, definitions or timestamps of one file are seen by the next, so a chained file does not decode as it does alone")
 	}
 	sharedDecode(c, r)
